@@ -8,7 +8,7 @@ from scipy.optimize import minimize
 
 from autode.conformers import Conformer
 import autode.exceptions as ex
-from autode.utils import log_time
+from autode.utils import log_time, run_in_tmp_environment
 from autode.input_output import xyz_file_to_atoms, atoms_to_xyz_file
 from autode.mol_graphs import split_mol_across_bond
 from autode.log import logger
@@ -48,6 +48,7 @@ def _get_bond_matrix(n_atoms, bonds, fixed_bonds):
     return bond_matrix
 
 
+@run_in_tmp_environment(OMP_NUM_THREADS=1)
 def _get_coords_energy(
     coords, bonds, k, c, d0, tol, fixed_bonds, exponent=8, fixed_idxs=None
 ):
@@ -75,7 +76,6 @@ def _get_coords_energy(
     from cconf_gen import dvdr
 
     n_atoms = len(coords)
-    os.environ["OMP_NUM_THREADS"] = str(1)
 
     bond_matrix = _get_bond_matrix(
         n_atoms=len(coords), bonds=bonds, fixed_bonds=fixed_bonds
@@ -96,6 +96,7 @@ def _get_coords_energy(
     return res.x.reshape(n_atoms, 3), res.fun
 
 
+@run_in_tmp_environment(OMP_NUM_THREADS=1)
 def _get_v(coords, bonds, k, c, d0, fixed_bonds, exponent=8):
     """Get the energy using a bond + repulsion FF where
 
@@ -117,7 +118,6 @@ def _get_v(coords, bonds, k, c, d0, fixed_bonds, exponent=8):
     from cconf_gen import v
 
     n_atoms = len(coords)
-    os.environ["OMP_NUM_THREADS"] = str(1)
 
     init_coords = coords.reshape(3 * n_atoms)
     bond_matrix = _get_bond_matrix(
